@@ -19,7 +19,7 @@ def mk_ma(lit):
             for n, q in names:
                 a[AssetName(bytes.fromhex(n))] = q
             seen[key] = a
-        ma[ScriptHash(bytes.fromhex(p))] = a
+        ma[pol(p)] = a
     return ma
 
 
@@ -180,7 +180,7 @@ def handler(case, payload):
             assert m is xs[op[1]].multi_asset
         elif k == 'setitem':
             ma = xs[op[1]].multi_asset
-            p, n = ScriptHash(bytes.fromhex(op[2])), AssetName(bytes.fromhex(op[3]))
+            p, n = pol(op[2]), AssetName(bytes.fromhex(op[3]))
             if p not in ma:
                 ma[p] = Asset()
             ma[p][n] = op[4]
@@ -205,7 +205,7 @@ def handler(case, payload):
         elif k == 'mage':
             obs.append(['b', bool(xs[op[1]].multi_asset >= xs[op[2]].multi_asset)]); continue
         elif k in ('ale', 'age', 'aiadd'):
-            ma, mb, p = xs[op[1]].multi_asset, xs[op[3]].multi_asset, ScriptHash(bytes.fromhex(op[2]))
+            ma, mb, p = xs[op[1]].multi_asset, xs[op[3]].multi_asset, pol(op[2])
             if p in ma.data and p in mb.data:
                 if k == 'ale':
                     obs.append(['b', bool(ma[p] <= mb[p])]); continue
